@@ -192,7 +192,9 @@ impl AsyncSeek for SimAsyncRead {
     }
 
     fn poll_complete(mut self: Pin<&mut Self>, cx: &mut Context<'_>) -> Poll<io::Result<u64>> {
-        if self.seek_to.is_some() && self.adv.pend(cx, 2) {
+        // Pending both while a seek is in flight and when poll_complete is called to make sure that
+        // none is (the AsyncSeek contract; a tokio::fs::File with an operation in flight does this)
+        if self.adv.pend(cx, 2) {
             return Poll::Pending;
         }
         if let Some(p) = self.seek_to.take() {
